@@ -16,12 +16,14 @@ def run(tier, t0):
         nb += len(f.body_list)
         c15.run(f, rep, cfg)
         c15.run_deep(f, rep, cfg)
+        c15.run_siblings(f, rep, cfg)
     stale = {}
     for s in rep.stale:
         stale.setdefault(s["key"], set()).add(s["config"])
     rep.stale = sorted(k for k, v in stale.items() if len(v) == 2)
     rep.floor("forwarders", 900)
     rep.floor("deep_forwarders", 5)
+    rep.floor("vartime_sibling_pairs", 60)
     return finish(rep, tier, t0,
                   explanation="forwarder family / operand-order / projection rule over %d MIR bodies in two "
                               "feature configurations; implementations (two or more family callees, branches, "
